@@ -484,6 +484,15 @@ fn run(name: &str, j: &J) -> Result<bool, String> {
             }
             Ok(true)
         }
+        // C18: converting an optional value whose content does not convert must give Err, not panic
+        "c18_optional_conversion" => {
+            let x = f(j, "x");
+            let v = Value::some(Value::float(x));
+            let target = DataType::optional(DataType::integer());
+            let r = v.as_data_type(&target);
+            println!("  Some({}) as {}: {:?}", x, target, r.as_ref().map(|v| v.to_string()).map_err(|e| e.to_string()));
+            Ok(true)
+        }
         _ => Err(format!("unknown replay `{}`", name)),
     }
 }
